@@ -951,7 +951,7 @@ fn neut_gain(sc: &mut Scene) -> bool {
 	});
 	hit
 }
-/// proposed: gains that are finite one by one but whose product with the largest source sample overflows f32
+/// F37: gains that are finite one by one but whose product with the largest source sample overflows f32
 fn neut_chain(sc: &mut Scene) -> bool {
 	let mut total = 0.0f64;
 	for_each_db(sc, &mut |d| {
@@ -1067,7 +1067,7 @@ fn neut_cmd_unit(sc: &mut Scene) -> bool {
 	}
 	hit
 }
-/// proposed: a power-curve easing with a negative power (Easing::apply then maps [0,1] to [1, inf])
+/// F36: a power-curve easing with a negative power (Easing::apply then maps [0,1] to [1, inf])
 fn neut_easing(sc: &mut Scene) -> bool {
 	let mut hit = false;
 	for_each_easing(sc, &mut |e| {
@@ -1078,7 +1078,7 @@ fn neut_easing(sc: &mut Scene) -> bool {
 	});
 	hit
 }
-/// proposed: a compressor threshold that is infinite once cast to f32 (`self.threshold.value() as f32`)
+/// F38: a compressor threshold that is infinite once cast to f32 (`self.threshold.value() as f32`)
 fn neut_comp_thr(sc: &mut Scene) -> bool {
 	let mut hit = false;
 	for_each_fx(sc, &mut |fx| {
@@ -1091,7 +1091,7 @@ fn neut_comp_thr(sc: &mut Scene) -> bool {
 	});
 	hit
 }
-/// proposed: an EQ gain so low that 10^(gain/40) underflows to 0 in f64 (then k = 1/(q*a) or g/sqrt(a) divides by 0)
+/// F39: an EQ gain so low that 10^(gain/40) underflows to 0 in f64 (then k = 1/(q*a) or g/sqrt(a) divides by 0)
 fn neut_eq_gain(sc: &mut Scene) -> bool {
 	let mut hit = false;
 	for_each_fx(sc, &mut |fx| {
@@ -1112,7 +1112,7 @@ fn neut_eq_gain(sc: &mut Scene) -> bool {
 	}
 	hit
 }
-/// proposed: seek_to / seek_by far beyond a loop region (Transport::seek_to subtracts the loop length once per iteration)
+/// F40: seek_to / seek_by far beyond a loop region (Transport::seek_to subtracts the loop length once per iteration)
 fn neut_seek(sc: &mut Scene) -> bool {
 	let looping = sc.ops.iter().any(|o| match o {
 		Op::Play(p) => p.looped.is_some(),
@@ -1626,6 +1626,13 @@ impl<'a> Gen<'a> {
 				}
 				ops.push(Op::Cmd(CmdSpec { sel: 0, which: 0, tw, ..self.cmd() })); // pause the track
 				cb(self, &mut ops, 3);
+				// ... and sounds that are already finished arrive on the paused track
+				if self.r.chance(2, 3) {
+					ops.push(Op::PlayProbe { len: self.r.below(3), on: Some(0) });
+					let p = plain(self, 0, Some(0));
+					ops.push(Op::Play(p));
+					cb(self, &mut ops, 2);
+				}
 				if self.r.chance(1, 2) {
 					ops.push(Op::DropHandle { sel: 0 });
 				} else {
@@ -1784,7 +1791,7 @@ fn corpus() -> Vec<(&'static str, &'static str, Scene)> {
 	s.main_fx = vec![Fx::Compressor { thr: -24.0, ratio: 0.0, attack: Duration::from_millis(10), release: Duration::from_millis(100), makeup: 0.0, mix: 1.0 }];
 	s.ops = vec![cb.clone()];
 	v.push((HZ_PARAM, "CompressorBuilder::new().ratio(0.0) on the main track, silence", s));
-	// proposed: easing with a negative power
+	// F36: easing with a negative power
 	let mut s = base_scene(48000, 64);
 	s.ops = vec![
 		Op::AddSub(SubSpec { vol: 0.0, cap: 2, sub_cap: 1, persist: false, fx: vec![], keep_fx_handles: false, send: None, parent: None }),
@@ -1792,7 +1799,7 @@ fn corpus() -> Vec<(&'static str, &'static str, Scene)> {
 		cb.clone(),
 	];
 	v.push((HZ_EASING, "track.resume(Tween { duration: 1 s, easing: InPowi(-40) }) on an empty sub-track", s));
-	// proposed: two finite gains whose product overflows, panned hard left (inf * 0 on the right)
+	// F37: two finite gains whose product overflows, panned hard left (inf * 0 on the right)
 	let mut s = base_scene(48000, 64);
 	s.main_fx = vec![Fx::Pan(-1.0)];
 	s.ops = vec![
@@ -1801,17 +1808,17 @@ fn corpus() -> Vec<(&'static str, &'static str, Scene)> {
 		cb.clone(),
 	];
 	v.push((HZ_CHAIN, "sound volume +700 dB on a track of volume +700 dB, hard-left panning effect on the main track", s));
-	// proposed: compressor threshold -1e300 (f32: -inf) on a non-silent signal
+	// F38: compressor threshold -1e300 (f32: -inf) on a non-silent signal
 	let mut s = base_scene(48000, 64);
 	s.main_fx = vec![Fx::Compressor { thr: -1e300, ratio: 2.0, attack: Duration::from_millis(10), release: Duration::from_millis(100), makeup: 0.0, mix: 1.0 }];
 	s.ops = vec![Op::Play(plain_play(48000, 100, 1)), cb.clone()];
 	v.push((HZ_COMP_THR, "CompressorBuilder::new().threshold(-1e300) on a non-silent signal", s));
-	// proposed: EQ gain -1e30 dB
+	// F39: EQ gain -1e30 dB
 	let mut s = base_scene(48000, 64);
 	s.main_fx = vec![Fx::Eq { kind: EqFilterKind::Bell, f: 1000.0, gain: -1e30, q: 1.0 }];
 	s.ops = vec![Op::Play(plain_play(48000, 100, 1)), cb.clone()];
 	v.push((HZ_EQ_GAIN, "EqFilterBuilder::new(Bell, 1000.0, Decibels(-1e30), 1.0)", s));
-	// proposed: seek far beyond a loop region
+	// F40: seek far beyond a loop region
 	let mut s = base_scene(48000, 64);
 	s.ops = vec![Op::Play(PlaySpec { looped: Some((0.0, 0.001)), ..plain_play(48000, 100, 1) }), Op::Cmd(CmdSpec { which: 6, seek: 1e300, ..plain_cmd() }), cb.clone()];
 	v.push((HZ_SEEK, "sound.seek_to(1e300) on a sound with a loop region", s));
